@@ -334,7 +334,7 @@ def _generate_once(r, filt, profile):
     enabled = [k for k in FAULT_KINDS if r.random() < 0.3]
     trace = []
     wd = W.make_world(r, gentle=(profile == 'est' and r.random() < 0.5))
-    n_range = (6, 60) if profile == 'sched' else (8, 40)
+    n_range = (6, 60) if profile == 'sched' else (8, 32)
     imu, period = _gen_imu_stamps(r, enabled, trace, template, n_range)
     imu_type = ['rate', 'increment'][int(r.integers(2))]
     max_epochs = 8 if profile == 'sched' else 5
@@ -368,7 +368,10 @@ def _generate_once(r, filt, profile):
     knobs['accel_model'] = gen_sensor_model(r, 'accel', p_none=p_none)
     knobs['models_omitted'] = bool(knobs['gyro_model'] is None and
                                    knobs['accel_model'] is None and r.random() < 0.5)
-    sig = [_logu(r, -1, 1.5), _logu(r, -2, 0.5), _logu(r, -2, 0.3), _logu(r, -2, 0.7)]
+    if profile == 'est':
+        sig = [_logu(r, -2, 2), _logu(r, -3, 1), _logu(r, -3, 0.5), _logu(r, -3, 1)]
+    else:
+        sig = [_logu(r, -1, 1.5), _logu(r, -2, 0.5), _logu(r, -2, 0.3), _logu(r, -2, 0.7)]
     knobs['sigmas'] = sig
     e = np.clip(r.standard_normal(9), -2, 2)
     knobs['init_err'] = [_f(x) for x in
